@@ -35,11 +35,20 @@ def cmdCli (fields : List String) : String :=
                   (match nodeOfState (kv fields "pkgstate") with | some n => [(out ++ "/" ++ name, n)] | none => [])
   let input := match kv fields "input" with
     | "missing" => InputState.missing | "unreadable" => .unreadable | "directory" => .directory | _ => .readable
-  let r := run fl fs0 input sr (fun _ => b "idvalid") (fun f => "content of " ++ f) []
+  -- `halves=a.go,b.go`: the files whose writing fails part-way (valid specification: every file is rendered, in order)
+  let halves := (kv fields "halves").splitOn ","
+  let faults : List Fault := if kv fields "halves" == "" then [] else
+    .none :: allFiles.map (fun f => if halves.contains f then .half else .none)
+  let render := fun f => "content of " ++ f
+  let r := run fl fs0 input sr (fun _ => b "idvalid") render faults
   let created := r.fs.filter (fun e => (fs0.get e.1).isNone)
   let unchanged := fs0.all (fun e => r.fs.get e.1 == some e.2)
   "exit=" ++ toString r.exit ++ " success=" ++ (if r.success then "1" else "0") ++ " unchanged=" ++ (if unchanged then "1" else "0") ++
     " created=" ++ ",".intercalate (created.map fun e =>
-      (if e.1.startsWith (out ++ "/") then (e.1.drop (out.length + 1)).toString else e.1) ++ (match e.2 with | .dir => "/" | _ => ""))
+      (if e.1.startsWith (out ++ "/") then (e.1.drop (out.length + 1)).toString else e.1) ++ (match e.2 with | .dir => "/" | _ => "")) ++
+    " incomplete=" ++ ",".intercalate (allFiles.filter fun f =>
+      match r.fs.get (out ++ "/" ++ name ++ "/" ++ f) with
+      | some (.file c) => c != render f
+      | _ => false)
 
 end Emerge.Driver
